@@ -22,7 +22,7 @@ import (
 // broadcast is small (gossip) or oversized (reliable send); a late joiner gets everything by push/pull.
 
 var c19mAlphabet = []string{
-	"am0: create small silence", "am1: create oversized silence (900B comment)", "am2: create silence just over the gossip threshold",
+	"am0: create small silence", "am1: create oversized silence (1600B comment, larger than a gossip packet)", "am2: create silence just over the gossip threshold",
 	"am0: expire its first silence", "isolate am2", "heal all links", "late joiner am3 starts", "advance 3s", "advance 65s (push/pull interval)",
 }
 
@@ -101,7 +101,7 @@ func c19mRun(t *testing.T, h []int) (res seqx.Result) {
 			case 0:
 				create(0, 5)
 			case 1:
-				create(1, 900)
+				create(1, 1600)
 			case 2:
 				create(2, 560)
 			case 3:
